@@ -4031,7 +4031,7 @@ class HCI_Configure_Data_Path_Command(HCI_SyncCommand[HCI_StatusReturnParameters
 
     data_path_direction: DataPathDirection = field(metadata=metadata(1))
     data_path_id: int = field(metadata=metadata(1))
-    vendor_specific_config: bytes = field(metadata=metadata('*'))
+    vendor_specific_config: bytes = field(metadata=metadata('v'))
 
 
 # -----------------------------------------------------------------------------
